@@ -37,7 +37,7 @@ CONSTANTS OGShapes, SCShapes, Pats, OptOuts, Orders, Rels, Dump
 
 AllOGShapes == {"none", "website", "article", "profile", "noTitle", "noType", "noUrl", "noImage"}
 AllSCShapes == {"none", "article", "nested", "unsupported", "inUnsupported"}
-AllPats     == {"P", "A", "E", "U", "R0", "R1", "R2", "Q0", "Q1", "Q2"}
+AllPats     == {"P", "A", "E", "U", "S", "R0", "R1", "R2", "Q0", "Q1", "Q2"}
 AllOptOuts  == {"absent", "true", "other"}
 AllImgs     == {"none", "prop", "object", "representative", "associated", "imageItem"}
 \* rel="author" anchors / links outside any item (the schema.org parser's last resort for the author):
@@ -56,7 +56,7 @@ Origins   == {"og", "schema", "ie", "none"}
 
 (***************************************************************************)
 (* Patterns: P/A/E = every free field present/absent/empty; U = only the   *)
-(* author(s) present; Rk and Qk                                            *)
+(* author(s) present; S = only the section; Rk and Qk                                            *)
 (* rotate present/empty/absent over the fields (by index mod 3, resp. by   *)
 (* index div 3), so that the three sources together run through all 27     *)
 (* status triples of every field.                                          *)
@@ -70,6 +70,7 @@ St(pat, name) ==
       [] pat = "A"  -> "absent"
       [] pat = "E"  -> "empty"
       [] pat = "U"  -> IF name \in {"authors", "author"} THEN "present" ELSE "absent"    \* nothing but the author(s)
+      [] pat = "S"  -> IF name = "section" THEN "present" ELSE "absent"                \* nothing but the section
       [] pat = "R0" -> Rot[(Idx[name] % 3) + 1]
       [] pat = "R1" -> Rot[((Idx[name] + 1) % 3) + 1]
       [] pat = "R2" -> Rot[((Idx[name] + 2) % 3) + 1]
